@@ -1,0 +1,78 @@
+//go:build verif
+
+package scheduler
+
+import (
+	"encoding/binary"
+
+	"github.com/cometbft/cometbft/abci/types"
+
+	beacon "github.com/oasisprotocol/oasis-core/go/beacon/api"
+	"github.com/oasisprotocol/oasis-core/go/common"
+	"github.com/oasisprotocol/oasis-core/go/common/crypto/signature"
+	"github.com/oasisprotocol/oasis-core/go/common/logging"
+	"github.com/oasisprotocol/oasis-core/go/consensus/cometbft/api"
+	scheduler "github.com/oasisprotocol/oasis-core/go/scheduler/api"
+	staking "github.com/oasisprotocol/oasis-core/go/staking/api"
+)
+
+// Verification hooks (build tag "verif" only): exported wrappers around the
+// package-private election code. No behaviour change.
+
+// VerifElect runs the validator and committee elections for the given epoch
+// on the state of ctx (no reward distribution).
+func (app *Application) VerifElect(ctx *api.Context, epoch beacon.EpochTime) error {
+	return app.elect(ctx, epoch, false)
+}
+
+// VerifDiffValidators is diffValidators.
+func VerifDiffValidators(current, pending map[signature.PublicKey]*scheduler.Validator) []types.ValidatorUpdate {
+	return diffValidators(logging.GetLogger("verif/scheduler"), current, pending)
+}
+
+// VerifEntityPerm returns the index permutation p applied by the entity
+// tie-break shuffle to a sorted address list of length n:
+// shuffled[i] = sorted[p[i]].
+func VerifEntityPerm(entropy []byte, n int) ([]int, error) {
+	rng, err := initRNG(entropy, nil, RNGContextEntities)
+	if err != nil {
+		return nil, err
+	}
+	addrs := make([]staking.Address, n)
+	for i := range addrs {
+		binary.BigEndian.PutUint64(addrs[i][1:9], uint64(i))
+	}
+	shuffleAddresses(addrs, rng)
+	p := make([]int, n)
+	for i := range addrs {
+		p[i] = int(binary.BigEndian.Uint64(addrs[i][1:9]))
+	}
+	return p, nil
+}
+
+// VerifValidatorPerm returns the index permutation used by the
+// entropy-based validator node shuffle for n nodes.
+func VerifValidatorPerm(entropy []byte, n int) ([]int, error) {
+	rng, err := initRNG(entropy, nil, RNGContextValidators)
+	if err != nil {
+		return nil, err
+	}
+	return rng.Perm(n), nil
+}
+
+// VerifCommitteePerm returns the index permutation used by the
+// entropy-based executor committee election for the given runtime and role.
+func VerifCommitteePerm(entropy []byte, rtID common.Namespace, role scheduler.Role, n int) ([]int, error) {
+	rngCtx := append([]byte{}, RNGContextExecutor...)
+	switch role {
+	case scheduler.RoleWorker:
+		rngCtx = append(rngCtx, RNGContextRoleWorker...)
+	case scheduler.RoleBackupWorker:
+		rngCtx = append(rngCtx, RNGContextRoleBackupWorker...)
+	}
+	rng, err := initRNG(entropy, rtID[:], rngCtx)
+	if err != nil {
+		return nil, err
+	}
+	return rng.Perm(n), nil
+}
